@@ -125,4 +125,15 @@ PROPS = {
         assumptions=["EntryWriter::finish only reads per-call state and clears dimensions_buf before use (syntactic check)", "configuration fields of State are never written during format (not proved)"],
         unreached=["EntryWriter::finish", "MetricsForDimensionSet::new"],
     ),
+    "C15": dict(
+        verus=[("wrappers", {})],
+        technique="Verus trait contracts (ghost item log) on the extracted real forwarding impls: Merged, MergedRef, RootEntry, &T / Option / Box / Arc for Entry and &T / Box / Arc for Value",
+        level_text="Deductive proof (Verus/z3) that each wrapper's real write body appends to the writer exactly the items its documented definition says: merged = first entry's items then second's (globals first), "
+                   "references / Box / Arc / RootEntry = the inner entry's items, an absent Option nothing; plus a composition lemma for nested wrappers. "
+                   "The BoxEntry Dyn* bridge, WithDimensions, ForceFlag and sample_group chaining (iterator adapters, trait objects) are NOT reached by this unit.",
+        level_note="Trusted: the trait-level contract 'an entry appends exactly items()' as the meaning of transparency; rewrite R14 (argument-position impl Trait written as a named generic); Verus + z3.",
+        explanation="forwarding wrappers against a ghost item log",
+        assumptions=["every leaf Entry / Value implementation meets the trait contract (it is the definition of what the entry reports)"],
+        unreached=["BoxEntry Dyn* bridge (entry/boxed.rs)", "WithDimensions / WithGlobalDimensions", "ForceFlag", "sample_group chaining", "Cow forwarding impls", "Option<T> as Value (negative fact)"],
+    ),
 }
